@@ -278,13 +278,135 @@ SUFFIX_DICT["OpensslVersion"] = SUFFIX_DICT["LegacyOpensslVersion"] + SUFFIX_DIC
 SUFFIX_DICT["GenericVersion"] = [".0", "a", "-1"]
 
 
+
+_MINED = {}
+
+
+def _file_words(path):
+    import ast
+    import re
+
+    words = set()
+    try:
+        tree = ast.parse(open(path).read())
+    except Exception:
+        return words
+    doc = set()
+    for node in ast.walk(tree):
+        if isinstance(node, ast.Expr) and isinstance(node.value, ast.Constant):
+            doc.add(id(node.value))
+    for node in ast.walk(tree):
+        if isinstance(node, ast.Constant) and isinstance(node.value, (str, bytes)) and id(node) not in doc:
+            v = node.value if isinstance(node.value, str) else node.value.decode("latin1")
+            if len(v) > 400:
+                continue
+            for w in re.findall(r"[A-Za-z]{1,9}", v):
+                words.add(w)
+                words.add(w.lower())
+    return words
+
+
+def mined_words():
+    """alphabetic tokens of the string constants (regexes, tables) in /repo/src/univers/**/*.py, docstrings excluded:
+    a fuzzing dictionary read from the live source, so that a word the code newly knows is generated too"""
+    if "words" in _MINED:
+        return _MINED["words"]
+    import glob
+
+    words = set()
+    for path in sorted(glob.glob("/repo/src/univers/**/*.py", recursive=True)):
+        words |= _file_words(path)
+    _MINED["words"] = sorted(words)
+    return _MINED["words"]
+
+
+def class_words(cls):
+    """the mined words of the modules that the class (and its bases in univers.versions) refers to"""
+    key = "cw:" + cls.__name__
+    if key in _MINED:
+        return _MINED[key]
+    import inspect
+    import re
+    import sys
+
+    words = set()
+    vmod = sys.modules.get("univers.versions")
+    for k in cls.__mro__:
+        if getattr(k, "__module__", "") != "univers.versions":
+            continue
+        try:
+            src = inspect.getsource(k)
+        except Exception:
+            continue
+        for ident in set(re.findall(r"[A-Za-z_][A-Za-z_0-9]*", src)):
+            obj = getattr(vmod, ident, None)
+            mod = obj if inspect.ismodule(obj) else sys.modules.get(getattr(obj, "__module__", None) or "")
+            f = getattr(mod, "__file__", None) if mod else None
+            if f and f.startswith("/repo/src/univers/") and not f.endswith("/versions.py"):
+                words |= _file_words(f)
+    _MINED[key] = sorted(words)
+    return _MINED[key]
+
+
+def mined_pairs(r, cls, cap):
+    """(base, base+suffix) version texts, one accepted suffix per mined word; the words of the class's own modules first"""
+    import re
+
+    sfx = mined_suffixes(cls)
+    if not sfx:
+        return []
+    base = _MINED["base:" + cls.__name__]
+    by_word = {}
+    for x in sfx:
+        by_word.setdefault(re.sub(r"[^A-Za-z]", "", x), []).append(x)
+    own = [w for w in class_words(cls) if w in by_word and len(w) > 1]
+    rest = [w for w in by_word if w not in set(own)]
+    r.shuffle(rest)
+    out = []
+    for w in (own + rest)[:cap]:
+        out.append((base, base + r.choice(by_word[w])))
+    return out
+
+
+def mined_suffixes(cls):
+    """suffixes sep+word[+digit] built from mined_words() that cls accepts after a plain base version"""
+    key = cls.__name__
+    if key in _MINED:
+        return _MINED[key]
+    out = []
+    bases = ["1.2.3", "1.2", "1", "3.0.1", "1.1.1"]
+    base = None
+    for b in bases:
+        try:
+            cls(b)
+            base = b
+            break
+        except Exception:
+            continue
+    _MINED["base:" + key] = base
+    if base is not None:
+        for w in mined_words():
+            for sep in ("", ".", "-", "_", "+", "~"):
+                for tail in ("", "1"):
+                    sfx = sep + w + tail
+                    try:
+                        cls(base + sfx)
+                    except BaseException:
+                        continue
+                    out.append(sfx)
+    _MINED[key] = out
+    return out
+
 def neighbours(r, cls, s, k=3):
     """up to k valid single-edit neighbours of the version text s (number +-1, x10, leading zero,
     separator swapped, suffix added/removed/renamed, segment appended)"""
     import re
 
     out = []
-    sfx = SUFFIX_DICT.get(cls.__name__, [".0"])
+    sfx = list(SUFFIX_DICT.get(cls.__name__, [".0"]))
+    mined = mined_suffixes(cls)
+    if mined:
+        sfx += [mined[r.randrange(len(mined))] for _ in range(max(3, len(sfx) // 2))]
     for _ in range(k * 6):
         t = s
         kind = r.randrange(7)
@@ -359,3 +481,39 @@ def equal_variant_pairs(r, cls, pool, limit):
                 out.append((x, v))
             out.append((v, w))
     return out[:limit]
+
+
+# ---------------------------------------------------------------- the two sub-domains C01 excludes from the order
+def conan_mixed(x, y):
+    """conan version texts x, y put a number and a non-numeric word in the same dotted position (of the main part,
+    or of the pre-release / build parts that are versions themselves)"""
+    def split(t):
+        build = pre = None
+        it = t.rsplit("+", 1)
+        if len(it) == 2:
+            t, build = it
+        it = t.rsplit("-", 1)
+        if len(it) == 2:
+            t, pre = it
+        return t.split("."), pre, build
+
+    (ix, px, bx), (iy, py, by) = split(x), split(y)
+    if any(p.isdigit() != q.isdigit() for p, q in zip(ix, iy)):
+        return True
+    if px is not None and py is not None and conan_mixed(px, py):
+        return True
+    if bx is not None and by is not None and conan_mixed(bx, by):
+        return True
+    return False
+
+
+def order_excluded(name, a, b):
+    """the two sub-domains the properties exclude from the order: alpm across has/has-no pkgrel, conan number-vs-word"""
+    if name == "ArchLinuxVersion":
+        def has_rel(v):
+            s = v.value.split(":", 1)[-1]
+            return "-" in s
+        return has_rel(a) != has_rel(b)
+    if name == "ConanVersion":
+        return conan_mixed(a.value._value, b.value._value)
+    return False
